@@ -68,12 +68,60 @@ def run(ctx, run):
     _cursor_and_count_together(ctx, run, P.need("demux_ts_packet", UNIT))
     _frame_pts_latched_at_start(ctx, run, P.need("demux_pes_packet_frame", UNIT))
     _no_case_fallthrough(ctx, run, P.need("valid_vbi_pes_packet_header", UNIT))
+    _skip_counts_from_anchor(ctx, run, P.need("demux_pes_packet", UNIT))
     # partition invariance: the header validation looks only at bytes the wrap-around buffer has been
     # asked to provide (rule shared with C06)
     from . import C06
     C06._header_lookahead(ctx, run)
     from .. import sweep
     sweep.run(ctx, run, [UNIT], SWEEP_TRUSTED, 20, 1)
+
+def _skip_counts_from_anchor(ctx, run, f):
+    """wrap_around() removes pes_wrap.skip bytes counted from the start of the window it handed out.  The
+    start code scan advances a cursor from an anchor (`scan_begin = p`); a skip computed at the cursor
+    therefore has to contain the scanned distance (cursor - anchor), otherwise what is skipped ends short of
+    where the scan stood and depends on how many bytes were scanned, i.e. on how the stream was cut."""
+    from .. import linear
+    run.touch(f)
+    anchors = []
+    for bid, i in flow.all_events(f):
+        for lhs, var, op, rhs in flow.stores(f, i):
+            if lhs is None or op != "=" or rhs is None:
+                continue
+            l, r = f.exprs[ex.skip(f, lhs)], f.exprs[ex.skip(f, rhs)]
+            if l["k"] == "ref" and r["k"] == "ref" and l.get("dk") == "local" and r.get("dk") in ("local", "param") \
+                    and l.get("t", "").rstrip().endswith("*") and r.get("t", "").rstrip().endswith("*") and "it" not in l:
+                anchors.append((bid, i, l["name"], r["name"]))
+    stores = []
+    for bid, i in flow.all_events(f):
+        for lhs, var, op, rhs in flow.stores(f, i):
+            if lhs is None or op != "=" or rhs is None:
+                continue
+            l = f.exprs[ex.skip(f, lhs)]
+            if l["k"] == "mem" and l["member"] == "skip" and l.get("in") == "wrap":
+                stores.append((bid, i, rhs))
+    run.floor("stores of the wrap-around skip count in demux_pes_packet", len(stores), 4)
+    n = 0
+    for abid, ai, anchor, cursor in anchors:
+        dom = [(b, i, rhs) for b, i, rhs in stores if b != abid and flow.dominates(f, abid, b)]
+        forms = [(i, linear.exact(f, rhs, i)) for b, i, rhs in dom]
+        with_d = [(i, fm) for i, fm in forms if fm is not None and fm[0].get(cursor) == 1 and fm[0].get(anchor) == -1]
+        if not with_d:
+            continue            # not a scan anchor
+        for i, fm in forms:
+            n += 1
+            key = "RF-UNIT:%s:skip-from-window-start:%s" % (f.name, linear.fmt(({k: v for k, v in (fm[0] if fm else {}).items()
+                                                                                    if k not in (cursor, anchor)}, 0)) if fm else "?")
+            if fm is not None and fm[0].get(cursor) == 1 and fm[0].get(anchor) == -1:
+                run.holds("RF-UNIT", key, "`%s` = %s counts from the window start" % (ex.pretty(f, i)[:60], linear.fmt(fm)), ex.loc(f, i))
+            else:
+                run.violation("RF-UNIT", key, "`%s` is computed at the scan cursor `%s` but does not contain the scanned distance "
+                              "%s - %s (its siblings do): wrap_around() counts the skip from the start of the window, so the skip "
+                              "ends short by the bytes already scanned and the scan resumes inside the packet that was to be skipped"
+                              % (ex.pretty(f, i)[:90], cursor, cursor, anchor), ex.loc(f, i),
+                              witness={"function": f.name, "form": linear.fmt(fm) if fm else None})
+    run.floor("skip stores behind the scan anchor", n, 3)
+
 
 def _underflow(ctx, run, f):
     an = ctx.analysis(f, False)
